@@ -210,6 +210,25 @@ func focusedCase(g *Gen) (string, Req) {
 	case 3: // third-party
 		mods = append(mods, Pick(g, []string{"third-party", "~third-party", "first-party", "~first-party"}))
 		r.Source = Pick(g, []string{"", "http://" + h + "/", "http://" + hostVariant(g, h) + "/x", "https://" + Pick(g, hostPool) + "/"})
+		if g.Chance(1, 4) {
+			// a public suffix nested BELOW a registrable domain (s3.amazonaws.com under amazonaws.com, *.kawasaki.jp under
+			// kawasaki.jp) or equal to the host: the page and the request are then different sites although one name ends
+			// with the other; each side has its own registrable domain
+			fam := Pick(g, [][2]string{{"amazonaws.com", "s3.amazonaws.com"}, {"amazonaws.com", "compute.amazonaws.com"}, {"kawasaki.jp", "b.kawasaki.jp"},
+				{"nom.br", "x.nom.br"}, {"github.io", "github.io"}, {"blogspot.com", "blogspot.com"}, {"example.org", "example.org"}, {"co.uk", "co.uk"}})
+			uh := Pick(g, []string{"", "static.", "www."}) + fam[0]
+			sh := Pick(g, []string{"a.", "a.b.", "", "bucket."}) + fam[1]
+			if g.Chance(1, 5) {
+				uh, sh = sh, uh
+			}
+			r.URL = "http://" + uh + path
+			r.Source = "https://" + sh + "/page"
+			if strings.HasPrefix(pat, "@@") {
+				pat = "@@||" + uh + "^"
+			} else {
+				pat = "||" + uh + "^"
+			}
+		}
 	case 4: // content types
 		ts := negSome(g, pickSome(g, contentTypes, 1, 3), 40)
 		mods = append(mods, ts...)
